@@ -92,6 +92,11 @@ type Query struct {
 	Desc   bool `json:"desc,omitempty"`
 	// OwnOrder: 0 none, 1 order by own n ASC, 2 DESC (for hf/tf).
 	OwnOrder int `json:"ownorder,omitempty"`
+	// IDMode: 0 no docID argument on the top-level selection, 1 `docID: "<id>"`, 2 `docID: [<ids>]`.
+	// IDs select documents of the queried collection modulo (all ever created + 1); the extra slot
+	// is a docID that never existed. Duplicates are dropped, the list is never empty.
+	IDMode int   `json:"idmode,omitempty"`
+	IDs    []int `json:"ids,omitempty"`
 }
 
 // Case is one generated history plus the reads made at its end.
@@ -282,6 +287,14 @@ func drawQuery(t *rapid.T, tp topoDef, c Case) Query {
 	q.Desc = rapid.Bool().Draw(t, "qdesc")
 	if rapid.IntRange(0, 3).Draw(t, "qoo") == 0 {
 		q.OwnOrder = rapid.IntRange(1, 2).Draw(t, "qood")
+	}
+	switch rapid.IntRange(0, 9).Draw(t, "qidmode") {
+	case 0, 1:
+		q.IDMode = 1
+		q.IDs = []int{rapid.IntRange(0, 6).Draw(t, "qid")}
+	case 2, 3:
+		q.IDMode = 2
+		q.IDs = rapid.SliceOfN(rapid.IntRange(0, 6), 1, 3).Draw(t, "qids")
 	}
 	q.K = normalKind(q.K, tp, q.Rel)
 	constrainQuery(&q, tp, c)
